@@ -72,6 +72,29 @@ func (P *Program) resolveExternal(fn *ssa.Function) externalFn {
 	if pkg == nil && fn.Origin() != nil {
 		pkg = fn.Origin().Pkg
 	}
+	if pkg != nil && fn.Name() == "String" && fn.Signature.Recv() != nil && strings.HasPrefix(pkg.Pkg.Path(), "github.com/bmeg/grip") {
+		// generated protobuf enums: String() goes through reflection tables that are not
+		// initialised here; answer from the generated <Enum>_name map instead
+		if named, ok := fn.Signature.Recv().Type().(*types.Named); ok {
+			if b, ok := named.Underlying().(*types.Basic); ok && b.Kind() == types.Int32 {
+				if g, ok := pkg.Members[named.Obj().Name()+"_name"].(*ssa.Global); ok {
+					return func(fr *frame, args []value) value {
+						fr.i.st.noteStub("enum String() via " + g.Name())
+						m, _ := (*fr.i.global(g)).(*smap)
+						if s, ok := args[0].(*symv); ok {
+							return fmt.Sprintf("<enum %s>", s.String())
+						}
+						if m != nil {
+							if v, ok := m.lookup(fr, args[0]); ok {
+								return v
+							}
+						}
+						return fmt.Sprintf("%d", asInt64(args[0]))
+					}
+				}
+			}
+		}
+	}
 	if pkg != nil {
 		path := pkg.Pkg.Path()
 		if P.NoopPkgs[path] {
@@ -316,6 +339,9 @@ func init() {
 		"(*sync/atomic.Value).Load":       ext۰atomic۰Value۰Load,
 		"(*sync/atomic.Value).Store":      ext۰atomic۰Value۰Store,
 		"os.Getenv":                       func(fr *frame, args []value) value { return "" },
+		"internal/stringslite.Clone":      func(fr *frame, args []value) value { return args[0] },
+		"strings.Clone":                   func(fr *frame, args []value) value { return args[0] },
+		"(google.golang.org/protobuf/internal/impl.Export).MessageStringOf": func(fr *frame, args []value) value { return "<message>" },
 	} {
 		externals[k] = v
 	}
